@@ -246,6 +246,23 @@ Proof.
     inversion R1; subst; split; try reflexivity; try discriminate; intros _; reflexivity.
 Qed.
 
+(* a cache hit is READ-ONLY: an answer given without running the sub-optimizer leaves every entry
+   of the store exactly as it was (the entry handed out included) *)
+Theorem hit_is_read_only d ns q cn : Inv d ->
+  fst (mrun c (d, ns) q) = Ok (false, cn) ->
+  forall k, good k -> view (fst (snd (mrun c (d, ns) q))) k = view d k.
+Proof.
+  intros HI E k Gk. destruct (refines d ns q HI) as (R1 & _ & _ & R4 & R5).
+  rewrite E in R1.
+  destruct (dkey_eqb k (key_of H c q)) eqn:EK.
+  - apply dkey_eqb_eq in EK. subst k. rewrite R4. clear R4 R5. unfold spec_step in *.
+    destruct (view d (key_of H c q)) as [old|]; destruct (overwrite c); destruct (cache_only c); cbn in *;
+      try discriminate; try reflexivity;
+      destruct (c_score (orc ns q) <? c_score old)%Z; cbn in *; try discriminate; reflexivity.
+  - apply R5; [exact Gk|]. intros ->.
+    assert (T : dkey_eqb (key_of H c q) (key_of H c q) = true) by (apply dkey_eqb_eq; reflexivity). congruence.
+Qed.
+
 (* with overwrite=False an entry, once present, never changes ... *)
 Theorem ovfalse_entry_stable d ns q k0 cn : Inv d -> overwrite c = OvFalse -> good k0 ->
   view d k0 = Some cn -> view (fst (snd (mrun c (d, ns) q))) k0 = Some cn.
